@@ -148,6 +148,12 @@ def c17_procedure_stmt_text_differs():
     return a.lower() == b.lower(), dict(f2003=a, f2008=b)
 
 
+def c03_defined_binary_op_then_dotted_operator():
+    """D17: 'a .myop. b .and. c' (valid: a .myop. (b .and. c)) is rejected"""
+    ok, info = _only_syntax_error("program p\nl = a .myop. b .and. c\nend program p\n")
+    return info.get("outcome") == "tree", info
+
+
 def c02_units_dropped_around_anonymous_main():
     """D6: program units before an anonymous main program are dropped from the tree"""
     p = _parser()
